@@ -325,5 +325,34 @@ theorem loader_src (bs : Bytes) : ∃ c, SrcTie.loadRdh bs = .ok c ∧ SrcTie.to
   rw [hm] at this
   exact ⟨c, hc, hm, this⟩
 
+
+/-- the source's running checker run over a header sequence: the `[E11]` flags it raises -/
+def srcRunFlags (v : SrcRdh.RdhCruRunningChecker) : List SrcRdh.RdhCru → List Bool
+  | [] => []
+  | c :: cs => (SrcRdh.RdhCruRunningChecker.check v c).1.isErr :: srcRunFlags (SrcRdh.RdhCruRunningChecker.check v c).2 cs
+
+theorem srcRunFlags_eq (cs : List SrcRdh.RdhCru) : ∀ (v : SrcRdh.RdhCruRunningChecker), SrcTie.RunWf v →
+    srcRunFlags v cs = runFlags (SrcTie.runAbs v) (cs.map SrcTie.toModel) := by
+  induction cs with
+  | nil => intros; rfl
+  | cons c cs ih =>
+    intro v hw
+    obtain ⟨h1, h2, h3, _⟩ := SrcTie.running_check_eq v c hw
+    simp only [srcRunFlags, List.map_cons, runFlags, h3, ih _ h2, h1]
+
+/-- **the source's `RdhCruRunningChecker`, started by `new()` and run over ANY sequence of headers of a link whose second
+    header carries page counter 1, reports `[E11]` for the i-th header iff that header violates the documented running
+    rules given the headers before it** (translated source `Spec/RdhSrcGen.lean` ↔ closed-form specification) -/
+theorem running_src_iff (cs : List SrcRdh.RdhCru) (hs : SecondPageIsOne (cs.map SrcTie.toModel)) :
+    srcRunFlags SrcRdh.RdhCruRunningChecker.new cs = specFlags [] (cs.map SrcTie.toModel) := by
+  rw [srcRunFlags_eq cs _ SrcTie.run_new.2, SrcTie.run_new.1]
+  exact running_iff _ hs
+
+/-- an `[E11]` result of the source carries that code -/
+theorem running_src_code (v : SrcRdh.RdhCruRunningChecker) (c : SrcRdh.RdhCru) (hw : SrcTie.RunWf v)
+    (h : (SrcRdh.RdhCruRunningChecker.check v c).1.isErr = true) :
+    ∃ rest, (SrcRdh.RdhCruRunningChecker.check v c).1.errStr.codes = 11 :: rest :=
+  (SrcTie.running_check_eq v c hw).2.2.2 h
+
 end C10
 end FastPasta
